@@ -11,6 +11,8 @@ import xml.etree.ElementTree as ET
 from ..core import scratch, VERIF, REPO
 from ..replay import run_test_module
 
+HANG_S = 20
+
 MODULE = r'''
 #[cfg(test)]
 mod verif_c13_mutants {
@@ -19,17 +21,27 @@ mod verif_c13_mutants {
     #[test]
     fn run() {
         let manifest = std::fs::read_to_string(r#"%s"#).unwrap();
+        let start: usize = std::env::var("VERIF_C13_START").ok().and_then(|s| s.parse().ok()).unwrap_or(0);
         for (i, path) in manifest.lines().enumerate() {
+            if i < start { continue; }
             println!("M|{i}|start|0");
             let t0 = std::time::Instant::now();
-            let r = std::panic::catch_unwind(|| {
-                let files = match read_input_file_and_xsd_files_at_path(std::path::Path::new(path)) { Ok(f) => f, Err(_) => return "read-err" };
-                let doc = match XmlReader::read_xml(&files) { Ok(d) => d, Err(_) => return "parse-err" };
-                let mut w = Vec::new();
-                match doc.write_xml(&mut w) { Ok(()) => "ok", Err(_) => "write-err" }
+            let path = path.to_string();
+            let (tx, rx) = std::sync::mpsc::channel();
+            // each input runs on its own thread so that a hang is observed (watchdog) instead of blocking the check
+            std::thread::spawn(move || {
+                let r = std::panic::catch_unwind(|| {
+                    let files = match read_input_file_and_xsd_files_at_path(std::path::Path::new(&path)) { Ok(f) => f, Err(_) => return "read-err" };
+                    let doc = match XmlReader::read_xml(&files) { Ok(d) => d, Err(_) => return "parse-err" };
+                    let mut w = Vec::new();
+                    match doc.write_xml(&mut w) { Ok(()) => "ok", Err(_) => "write-err" }
+                });
+                let _ = tx.send(match r { Ok(s) => s, Err(_) => "PANIC" });
             });
-            let ms = t0.elapsed().as_millis();
-            match r { Ok(s) => println!("M|{i}|{s}|{ms}"), Err(_) => println!("M|{i}|PANIC|{ms}") }
+            match rx.recv_timeout(std::time::Duration::from_secs(%d)) {
+                Ok(s) => println!("M|{i}|{s}|{}", t0.elapsed().as_millis()),
+                Err(_) => { println!("M|{i}|HANG|{}", t0.elapsed().as_millis()); std::process::exit(0); }
+            }
         }
         println!("M|end|done|0");
     }
@@ -82,8 +94,19 @@ def _mutants_of(text: str, rng: random.Random, limit: int):
             muts.append(('retarget:' + m.group(1), text[:m.start(2)] + v.split(':', 1)[0] + ':NoSuchThing' + text[m.end(2):]))
         muts.append(('empty-value:' + m.group(1), text[:m.start(2)] + text[m.end(2):]))
     rng.shuffle(muts)
-    return muts[:limit]
+    muts = muts[:limit]
+    # namespace URIs are schema-supplied text that the library slices and abbreviates: swap each URI of the document (all of its
+    # occurrences at once) for adversarial ones; these are always kept
+    uris = sorted({m.group(2) for m in re.finditer(r'\s(targetNamespace|xmlns:[\w.-]+)="([^"]*)"', text)
+                   if 'w3.org' not in m.group(2) and 'xmlsoap.org' not in m.group(2)})
+    for u in uris[:3]:
+        for k, adv in enumerate(ADVERSARIAL_URIS):
+            muts.append((f'adversarial-uri:{k}', text.replace('"' + u + '"', '"' + adv + '"')))
+    return muts
 
+
+ADVERSARIAL_URIS = ['http://example.org/pr\u00fcfung', 'http://example.org/money-v.1\u20ac', 'http://example.org/', '', 'urn:\u20ac',
+                    'http://example.org/\u65e5\u672c\u8a9e', 'http://example.org/a-', '...', 'http://example.org/x/.\u00e9.\u00e9', '\U0001F600']
 
 FIXED = [
     ('not-xml', 'this is not xml at all <<<'),
@@ -142,32 +165,51 @@ def search(repo: str = REPO, tier: str = 'quick', seed: int = 0) -> dict:
     kinds.append('fixed:mutual-import')
     mf = os.path.join(root, 'manifest.txt')
     open(mf, 'w').write('\n'.join(manifest) + '\n')
-    rc, outp = run_test_module(MODULE % mf, 'verif_c13_mutants::run', repo, timeout=1800)
-    res = {'mutants': len(manifest), 'completed': 0, 'anomalies': [], 'outcomes': {}, 'slowest_ms': 0}
-    started = None
-    ended = False
-    for line in outp.splitlines():
-        m = re.match(r'^(?:test \S+ \.\.\. )?M\|(\w+)\|([\w-]+)\|(\d+)$', line)
-        if not m:
-            continue
-        i, st, ms = m.group(1), m.group(2), int(m.group(3))
-        if i == 'end':
-            ended = True
-            continue
-        i = int(i)
-        if st == 'start':
-            started = i
-            continue
-        res['completed'] += 1
-        res['outcomes'][st] = res['outcomes'].get(st, 0) + 1
-        res['slowest_ms'] = max(res['slowest_ms'], ms)
-        if st == 'PANIC':
-            res['anomalies'].append({'mutant': kinds[i], 'observed': 'panic', 'file': manifest[i], 'text': open(manifest[i], encoding='utf-8').read()[:3000]})
-        elif ms > 20000:
-            res['anomalies'].append({'mutant': kinds[i], 'observed': f'took {ms} ms', 'file': manifest[i]})
-    if not ended and started is not None:
-        res['anomalies'].append({'mutant': kinds[started], 'observed': 'process aborted (stack overflow?) or timed out while processing this input',
-                                 'file': manifest[started], 'text': open(manifest[started], encoding='utf-8').read()[:3000]})
+    res = {'mutants': len(manifest), 'completed': 0, 'anomalies': [], 'outcomes': {}, 'slowest_ms': 0, 'per_input_timeout_s': HANG_S}
+    start_at, restarts = 0, 0
+    outp = ''
+    while start_at < len(manifest) and restarts <= 6:
+        os.environ['VERIF_C13_START'] = str(start_at)
+        try:
+            rc, outp = run_test_module(MODULE % (mf, HANG_S), 'verif_c13_mutants::run', repo, timeout=1800)
+        finally:
+            os.environ.pop('VERIF_C13_START', None)
+        started = None
+        ended = False
+        hang = None
+        for line in outp.splitlines():
+            m = re.match(r'^(?:test \S+ \.\.\. )?M\|(\w+)\|([\w-]+)\|(\d+)$', line)
+            if not m:
+                continue
+            i, st, ms = m.group(1), m.group(2), int(m.group(3))
+            if i == 'end':
+                ended = True
+                continue
+            i = int(i)
+            if st == 'start':
+                started = i
+                continue
+            res['completed'] += 1
+            res['outcomes'][st] = res['outcomes'].get(st, 0) + 1
+            res['slowest_ms'] = max(res['slowest_ms'], ms)
+            if st == 'PANIC':
+                res['anomalies'].append({'mutant': kinds[i], 'observed': 'panic', 'file': manifest[i], 'text': open(manifest[i], encoding='utf-8').read()[:3000]})
+            elif st == 'HANG':
+                hang = i
+                res['anomalies'].append({'mutant': kinds[i], 'observed': f'did not return within {HANG_S} s (hang)', 'file': manifest[i],
+                                         'text': open(manifest[i], encoding='utf-8').read()[:3000]})
+        if ended:
+            break
+        if hang is not None:
+            start_at = hang + 1
+        elif started is not None:
+            res['anomalies'].append({'mutant': kinds[started], 'observed': 'process aborted (stack overflow?) while processing this input',
+                                     'file': manifest[started], 'text': open(manifest[started], encoding='utf-8').read()[:3000]})
+            start_at = started + 1
+        else:
+            break
+        restarts += 1
+    res['restarts_after_hang_or_abort'] = restarts
     if res['completed'] == 0 and not res['anomalies']:
         res['error'] = outp[-1500:]
     return res
